@@ -288,8 +288,14 @@ Fixpoint digits_val (s : string) (acc : Z) : Z :=
   | EmptyString => acc
   end.
 
-Definition strip_prefix (p s : string) : option string :=
-  if String.prefix p s then Some (String.substring (String.length p) (String.length s - String.length p) s) else None.
+Fixpoint strip_prefix (p s : string) : option string :=
+  match p with
+  | EmptyString => Some s
+  | String a p' => match s with
+                   | String b s' => if Ascii.eqb a b then strip_prefix p' s' else None
+                   | EmptyString => None
+                   end
+  end.
 
 (* teaal/parse/level.py grammar + Architecture.__init__:  NAME -> (NAME, 1) ;  NAME[0..N] -> (NAME, N + 1).
    Blanks are allowed between tokens; `[0..` is one token. *)
